@@ -65,7 +65,9 @@ def term_text_verbatim(prog):
         if isinstance(e, ast.Name):
             if e.id == src:
                 return True
-            if e.id in seen or e.id not in defs:
+            if e.id in seen:
+                return True         # a cycle of locals derived from each other: decided by their other definitions
+            if e.id not in defs:
                 return False
             return all(verbatim(d, seen + (e.id,)) or (isinstance(d, ast.Name) and d.id == e.id) or _self_derived(d, e.id, seen)
                        for d in defs[e.id])
